@@ -813,8 +813,8 @@ def run(ctx):
     # ---- generated cases
     rng = ctx.rng("gen")
     nprog = ctx.pick(8, 70)
-    max_stage2 = ctx.pick(2, 3)
-    stage2_sample = ctx.pick(14, 30)
+    max_stage2 = ctx.pick(1, 3)
+    stage2_sample = ctx.pick(12, 30)
     max_names = ctx.pick(150, 700)
     groups = []          # (program tuples, Names, [Case], decls, stores)
     names_cases = []     # (tree, observed names)
@@ -988,20 +988,29 @@ def run(ctx):
         gidx = [i for i, g in enumerate(groups) if g[2]]
         bad = ctx.coq_eval_failing(HEADER, "list stmt * list rcase", "pcheck", pc, shard=ctx.pick(3, 10), timeout=900)
         stricter = 0
-        for b in bad:
-            p, nm, cs, text = groups[gidx[b]]
-            single = ["(%s, [%s])" % (mf.stmts_to_coq(p, nm), rcase_coq(c, nm)) for c in cs]
-            bad_exact = ctx.coq_eval_failing(HEADER, "list stmt * list rcase", "pcheck", single, shard=400)
-            bad_1 = set(ctx.coq_eval_failing(HEADER, "list stmt * list rcase", "pcheck1", single, shard=400))
-            for k in bad_exact:
-                if k in bad_1:
+        if bad:
+            # which of the differing groups differ in the direction that matters (implementation accepts more /
+            # builds another tree)?  the others are "implementation stricter than the model" (never an alarm)
+            bad1 = ctx.coq_eval_failing(HEADER, "list stmt * list rcase", "pcheck1", [pc[b] for b in bad],
+                                        shard=ctx.pick(3, 10), timeout=900)
+            really = [bad[k] for k in bad1]
+            ctx.notes["groups_differing"] = {"any": len(bad), "implementation_accepts_more_or_other_tree": len(really)}
+            stricter = len(bad) - len(really)       # counted per group
+            for b in really[:2]:                    # pinpoint the cases of the first two groups
+                p, nm, cs, text = groups[gidx[b]]
+                single = ["(%s, [%s])" % (mf.stmts_to_coq(p, nm), rcase_coq(c, nm)) for c in cs]
+                bad_1 = ctx.coq_eval_failing(HEADER, "list stmt * list rcase", "pcheck1", single, shard=100)
+                for k in bad_1:
                     disagreements.append((p, nm, cs[k], text))
-                else:
-                    stricter += 1
+            if really and not disagreements:
+                raise RuntimeError("group-level and case-level model evaluation disagree")
+            n_dis_groups = len(really)
+        else:
+            n_dis_groups = 0
         ctx.notes["implementation_stricter_than_model"] = stricter
-        ctx.hist("model_vs_impl", "agree", ncases - len(disagreements) - stricter)
-        ctx.hist("model_vs_impl", "impl_stricter", stricter)
-        ctx.hist("model_vs_impl", "DISAGREE", len(disagreements))
+        ctx.hist("model_vs_impl_groups", "agree", len(pc) - len(bad))
+        ctx.hist("model_vs_impl_groups", "impl_stricter_only", stricter)
+        ctx.hist("model_vs_impl_groups", "DISAGREE", n_dis_groups)
         # names
         ncs = []
         for res, obs, text, tname, tgt, written, nm in names_cases:
@@ -1034,7 +1043,7 @@ def run(ctx):
             if a[1]["outcome"] == "wrapped-UNBALANCED":
                 prop_failures.append(dict(a[1], what="automatic whole-routine profiling region is not balanced"))
         ctx.cov["disagreements_checked"] = len(disagreements)
-        ctx.log("model vs implementation: %d disagreements (impl stricter: %d), names cases %d (bad %d), auto-profile %d (bad %d)"
+        ctx.log("model vs implementation: %d disagreeing cases pinpointed (groups where impl is only stricter: %d), names cases %d (bad %d), auto-profile %d (bad %d)"
                 % (len(disagreements), stricter, len(ncs), len(nbad), len(acs), len(abad)))
     # ---- thorough: compiled runs against the checking stub library
     if stubdir is not None:
